@@ -52,7 +52,7 @@ def inj_cmds(ctx, quick):
             for k in ks:
                 errl = [errs[(k + len(proto)) % len(errs)]] if quick else errs
                 for e in errl:
-                    cmds.append("INJ %s %s %d %s %d" % (proto, d, k, e, ctx.seed * 1000 + k))
+                    cmds.append("INJ %s %s %d %s %d" % (proto, d, k, e, ctx.vseed * 1000 + k))
     return cmds
 
 
